@@ -89,6 +89,13 @@ def run_gen(ctx, rep, rules, only_par=False, only_tags=None, floors=None):
                 gen_rules.check_G6(pg, rep, ctx)
             elif r == 'G3r':
                 gen_rules.check_G3r(pg, rep)
+            elif r == 'G3r.maint':
+                # only the maintenance half (C13: what the first run() misses, the second - after re-indexing - finds)
+                gen_rules.check_G3r(pg, rep, with_g13=False)
+            elif r == 'G3r.mono':
+                # C03 speaks about programs that use lattice values monotonically: an index keyed by the lattice value is an equality
+                # test on it and outside that premise (C06 owns those: plan independence)
+                gen_rules.check_G3r(pg, rep, skip_lattice_value_keys=True)
             elif r == 'G12':
                 gen_rules.check_G12(pg, rep)
             elif r == 'G10':
